@@ -204,8 +204,20 @@ func (c *sctx) classify(e ast.Expr, fd *ast.FuncDecl, seen map[string]bool) stri
 	switch x := e.(type) {
 	case *ast.ParenExpr:
 		return c.classify(x.X, fd, seen)
+	case *ast.CallExpr:
+		// e.g. `tracer.Start(ctx, "name")`: a context derived from its first argument
+		if len(x.Args) > 0 {
+			return c.classify(x.Args[0], fd, seen)
+		}
+		return "unknown:" + src(c.fset, e)
 	case *ast.Ident:
 		// a local variable: everything assigned to it in this function
+		lkey := "local:" + funcLabel(fd) + ":" + x.Name
+		if seen[lkey] {
+			return "" // `ctx, span := tracer.Start(ctx, …)`: neutral
+		}
+		seen[lkey] = true
+		defer delete(seen, lkey)
 		cls := ""
 		ast.Inspect(fd, func(n ast.Node) bool {
 			as, ok := n.(*ast.AssignStmt)
@@ -254,6 +266,12 @@ func (c *sctx) classify(e ast.Expr, fd *ast.FuncDecl, seen map[string]bool) stri
 		return cls
 	case *ast.SelectorExpr:
 		// a struct field: everything assigned to a field of that name in the file
+		fkey := "field:" + x.Sel.Name
+		if seen[fkey] {
+			return "" // `clone` copies the field from another instance: neutral
+		}
+		seen[fkey] = true
+		defer delete(seen, fkey)
 		cls := ""
 		ast.Inspect(c.file, func(n ast.Node) bool {
 			switch y := n.(type) {
